@@ -24,6 +24,53 @@ SWALLOWS = {
     ('tasks.Task._wait_until_all_complete', 'Exception'): "the same future's result() is called again in _get_all_main_kwargs, which raises",
     ('bandwidth.BandwidthLimitedStream._consume_through_leaky_bucket', 'RequestExceededException'): 'flow control: sleep the advised time and re-consume (C13)',
 }
+# Where a documented swallow may also appear when the method that holds it is cut differently (the helper inlined into
+# its callers, a method split in two): a handler of the same owner (class or module) with the same exception type whose
+# guarded statements and handler body are the same up to local names and logging - the *fingerprint* below.
+def handler_fingerprint(try_node, h):
+    import copy
+
+    def strip(stmts):
+        out = []
+        for s_ in stmts:
+            if isinstance(s_, ast.Expr) and isinstance(s_.value, ast.Call) and (dotted(s_.value.func) or '').startswith('logger.'):
+                continue
+            out.append(s_)
+        return out
+    mod = ast.Module(body=copy.deepcopy(strip(try_node.body)) + [ast.Expr(value=ast.Constant(value='<handler>'))] + copy.deepcopy(strip(h.body)), type_ignores=[])
+    names = {}
+    for n in ast.walk(mod):
+        if isinstance(n, ast.Name) and n.id != 'self':
+            n.id = names.setdefault(n.id, f'v{len(names)}')
+        elif isinstance(n, ast.ExceptHandler) and n.name:
+            n.name = names.setdefault(n.name, f'v{len(names)}')
+    return norm(mod)
+
+
+def swallow_prints(ctx):
+    """{(owner scope, type, fingerprint): reason} of the documented swallows as they occur in this tree and its expanded view"""
+    prints = {}
+    xp = ctx.expanded().p
+    for f in list(ctx.p.all_functions()) + list(xp.all_functions()):
+        owner = f.cls.qualname if f.cls is not None else f.module.name
+        for t_ in own_nodes(f.node):
+            if isinstance(t_, ast.Try):
+                for h in t_.handlers:
+                    if (f.qualname, handler_type_text(h)) in SWALLOWS:
+                        prints.setdefault((owner, handler_type_text(h), handler_fingerprint(t_, h)), SWALLOWS[(f.qualname, handler_type_text(h))])
+    return prints
+
+
+def frozen_swallow_prints():
+    """the same, frozen for the tree the rules were confirmed against (s3tlint/known_swallows.json, tools/gen_inventory.py)"""
+    import json
+    import os
+    p = os.path.join(os.path.dirname(os.path.dirname(__file__)), 'known_swallows.json')
+    if not os.path.exists(p):
+        return {}
+    return {(o, t, fp): r for o, t, fp, r in json.load(open(p))}
+
+
 RECORDERS = {'set_exception', '_log_and_set_exception', 'notify_exception', 'set_exception_info'}
 BROAD = {'Exception', 'BaseException', 'OSError', 'IOError', 'EnvironmentError', '<bare>'}
 
@@ -239,6 +286,11 @@ def error_discipline(ctx):
     table of documented swallows (one reason each).  No contextlib.suppress."""
     retry_handlers = {rl.handler for rl in retry_loops(ctx)}
     seen = set()
+    # fingerprints of the documented swallows, taken from the fully expanded view of the *current* tree (so that a
+    # documented helper that has been inlined is still found inside its former callers) keyed by owner scope
+    prints = dict(frozen_swallow_prints())
+    for k_, v_ in swallow_prints(ctx).items():
+        prints.setdefault(k_, v_)
     for f in ctx.p.all_functions():
         for h in own_nodes(f.node):
             if not isinstance(h, ast.ExceptHandler):
@@ -247,6 +299,12 @@ def error_discipline(ctx):
             key = (f.qualname, handler_type_text(h))
             if kind == 'swallow':
                 reason = SWALLOWS.get(key)
+                if reason is None:
+                    owner = f.cls.qualname if f.cls is not None else f.module.name
+                    fp = (owner, handler_type_text(h), handler_fingerprint(h._parent, h))
+                    if fp in prints:
+                        reason = prints[fp] + ' (same guarded statements as the documented site)'
+                        key = (f.qualname + '#' + str(len(seen)), key[1])
                 if reason and key not in seen:
                     seen.add(key)
                     ctx.ob(f, f'except {key[1]}: documented swallow', True, reason)
